@@ -28,11 +28,11 @@ THEOREMS = [
     'Sbepp.Properties.C12.model_shapes_current',
     'Sbepp.Properties.C12.begin_spec',
     'Sbepp.Properties.C12.end_spec',
+    'Sbepp.Properties.C12.plus_spec',
+    'Sbepp.Properties.C12.minus_spec',
     'Sbepp.Properties.C12.begin_plus_size_eq_end_partial',
     'Sbepp.Properties.C12.begin_plus_size_eq_end_full_false',
     'Sbepp.Properties.C12.subscript_is_deref_plus',
-    'Sbepp.Properties.C12.plus_spec',
-    'Sbepp.Properties.C12.minus_spec',
     'Sbepp.Properties.C12.add_sub_cancel',
     'Sbepp.Properties.C12.add_sub_cancel_full_false',
     'Sbepp.Properties.C12.distance_matches_index_partial',
@@ -46,12 +46,17 @@ THEOREMS = [
     'Sbepp.Properties.C12.nested_size_bytes_spec',
     'Sbepp.Properties.C12.resize_writes_only_numInGroup',
     'Sbepp.Properties.C12.clear_writes_only_numInGroup',
+    'Sbepp.Spec.Group.entryAddr_add',
+    'Sbepp.Spec.Group.entryAddr_end',
+    'Sbepp.Spec.Group.startsIter_eq_starts',
+    'Sbepp.Spec.Group.endIter_eq_nestedSize',
 ]
 
 FLAT_MODULE = 'Sbepp.Properties.C05Flat'
 FLAT_THEOREMS = [
     'Sbepp.Properties.C05Flat.flat_size_exact',
-    'Sbepp.Properties.C05Flat.flat_size_no_wrap_needed',
+    'Sbepp.Properties.C05Flat.flat_size_mod',
+    'Sbepp.Properties.C05Flat.flat_size_model',
 ]
 
 TYS = ['u8', 'u16', 'u32', 'u64']
@@ -360,9 +365,37 @@ class Tally:
         self.by_spec = {}
         self.distinct = set()
         self.broken = None
+        self.failures = []      # (class key, replay dict)
+
+    def fail(self, key, replay):
+        self.failures.append((key, replay))
+
+    def flush(self, chk):
+        """report every impl≠spec case; order them round-robin over (stream, operation, numInGroup
+        type) classes so that the few replay files that are written show different failures"""
+        hist = {}
+        buckets = {}
+        for key, rep in self.failures:
+            hist[key] = hist.get(key, 0) + 1
+            buckets.setdefault(key, []).append(rep)
+        order = []
+        keys = sorted(buckets)
+        depth = 0
+        while len(order) < len(self.failures):
+            for k in keys:
+                if depth < len(buckets[k]):
+                    order.append(buckets[k][depth])
+            depth += 1
+        for rep in order:
+            chk.report_failure(rep)
+        if hist:
+            chk.extra['violation_histogram'] = {'%s/%s/%s' % k: v for k, v in sorted(hist.items())}
+            chk.log('impl≠spec by (stream/op/numInGroup type): ' +
+                    ', '.join('%s/%s/%s=%d' % (k + (v,)) for k, v in sorted(hist.items())[:40]))
+        self.failures = []
 
 
-def compare_grp(chk, tally, cfg, flavour, lines, mout, iout, model_only_pred=None):
+def compare_grp(chk, tally, cfg, flavour, lines, mout, iout, model_only_pred=None, stream='grp'):
     cxx, std = cfg
     for line, m, i in zip(lines, mout, iout):
         req = kv(line)
@@ -397,7 +430,7 @@ def compare_grp(chk, tally, cfg, flavour, lines, mout, iout, model_only_pred=Non
                         'hdr': int(req['hdr']) if 'hdr' in req else None, 'expr': e, 'op': top_op(e),
                         'impl': iv, 'spec': sv, 'model': mv, 'cxx': cxx, 'std': std, 'flavour': flavour,
                         'wn': W[req['nt']], 'wb': W[req['bt']]}
-                chk.report_failure({
+                tally.fail((stream, top_op(e), req['nt']), {
                     'kind': 'impl≠spec', 'harness': 'c12_grp', 'flavour': flavour, 'config': {'cxx': cxx, 'std': std},
                     'lines': [mk_single(req, e)], 'observed': {'impl': iv, 'model': mv, 'spec': sv}, 'case': case})
             elif mv != sv:
@@ -431,7 +464,7 @@ def compare_simple(chk, tally, cfg, flavour, lines, mout, iout, harness_cmd):
                     case[k] = int(case[k])
             if 'nt' in req:
                 case['wn'], case['wb'] = W[req['nt']], W[req['bt']]
-            chk.report_failure({
+            tally.fail((harness_cmd, harness_cmd, req.get('nt', '-')), {
                 'kind': 'impl≠spec', 'harness': 'c12_grp', 'flavour': flavour, 'config': {'cxx': cxx, 'std': std},
                 'lines': [line], 'observed': {'impl': iv, 'model': mv, 'spec': sv}, 'case': case})
         elif mv != sv:
@@ -534,8 +567,9 @@ def correspond(chk, configs):
                     compare_simple(chk, tally, cfg, fl, lines, mouts[name], iout, name)
                 else:
                     compare_grp(chk, tally, cfg, fl, lines, mouts[name], iout,
-                                model_only_pred=view_too_short if name == 'checked' else None)
-        chk.log('%s -std=%s compared (evaluations so far %d, violations %d)' % (cfg[0], cfg[1], tally.evals, len(chk.violations)))
+                                model_only_pred=view_too_short if name == 'checked' else None, stream=name)
+        chk.log('%s -std=%s compared (evaluations so far %d, impl≠spec so far %d)' % (cfg[0], cfg[1], tally.evals, len(tally.failures)))
+    tally.flush(chk)
     if tally.broken and not chk.violations:
         chk.report_unproved('impl≠model (implementation agrees with the specification wherever it speaks)', tally.broken)
     chk.cov['evaluations'] = tally.evals
@@ -588,6 +622,7 @@ def flat_size_correspond(chk, configs=None):
             chk.report_unproved('harness-run', '%s %s grpsize rc=%s' % (cfg[0], cfg[1], rc))
             continue
         compare_simple(chk, tally, cfg, 'unchecked', lines, mout, iout, 'sizes')
+    tally.flush(chk)
     if tally.broken and not chk.violations:
         chk.report_unproved('impl≠model (flat size_bytes)', tally.broken)
     chk.cov['flat_size_evaluations'] = tally.evals
@@ -599,7 +634,7 @@ def flat_size_correspond(chk, configs=None):
 def run(chk):
     chk.extract()
     extract_group(chk)
-    if chk.prop == 'C05':
+    if chk.prop.upper().startswith('C05'):
         mod, ths = flat_size_obligations()
         proved = chk.prove(mod, ths)
         if chk.tier == 'thorough' and proved:
